@@ -181,11 +181,15 @@ func (g *genB) finish(body string) string {
 		}
 		name := bPkgName[a]
 		local := a
+		if g.tp.Int(3) == 0 {
+			// files of one package may disagree on the alias of a path
+			local = a + "x"
+		}
 		if !taken[name] && g.tp.Int(3) != 0 {
 			local = name
 			fmt.Fprintf(&b, "\t%q\n", path)
 		} else {
-			fmt.Fprintf(&b, "\t%s %q\n", a, path)
+			fmt.Fprintf(&b, "\t%s %q\n", local, path)
 		}
 		taken[local] = true
 		body = strings.ReplaceAll(body, "@"+a+"@", local)
